@@ -632,7 +632,18 @@ func checkBatchOutcome(sc *Scenario, order []int, refs []*lineRef, out *BatchOut
 			continue
 		}
 		got := outputsOf(out.Disk, outIDOf(sc, li))
-		if d := diffFiles(refs[li].files, got); d != "" {
+		want := refs[li].files
+		if out.RealDisk && !refs[li].success {
+			// on the real disk a program may tidy up after a failed run (the reference comes from the simulated disk, which
+			// knows no removal): what a failing line has left must equal its solo run, but it need not have left everything
+			want = map[string][]byte{}
+			for n, d := range refs[li].files {
+				if _, ok := got[n]; ok {
+					want[n] = d
+				}
+			}
+		}
+		if d := diffFiles(want, got); d != "" {
 			add("solo-equivalence", "stream-differs-from-solo-run", fmt.Sprintf("line [%d] (%s): %s", pos, sc.lineText(li), d), fmt.Sprintf("[%d]", pos))
 			break
 		}
@@ -1231,7 +1242,7 @@ func execRealBinary(sc *Scenario, env *Env, root string, refs []*lineRef, order 
 		if err != nil {
 			msg = fmt.Sprintf("hermes2go %s: %v: %s", strings.Join(argv, " "), err, firstLine(lastNonEmpty(string(outB))))
 		}
-		return &BatchOutcome{Disk: disk, Stdout: string(outB)}, msg
+		return &BatchOutcome{Disk: disk, Stdout: string(outB), RealDisk: true}, msg
 	}
 	judge := func() []batchViol {
 		out, msg := once()
